@@ -140,9 +140,12 @@ class Net:
         self.fault_fired: str | None = None
         self.connect_outcomes = list(connect_outcomes) if connect_outcomes is not None else None
         self.on_event: typing.Callable[[dict[str, typing.Any]], None] | None = None
+        self.max_events = 100_000
 
     # ------------------------------------------------------------- ledger
     def log(self, op: str, sock: Sock | None, **kw: typing.Any) -> dict[str, typing.Any]:
+        if len(self.ledger) >= self.max_events:
+            raise Hang([f"livelock: more than {self.max_events} network operations in one scenario"])
         e = {"n": len(self.ledger), "op": op, "sock": None if sock is None else sock.id}
         e.update(kw)
         self.ledger.append(e)
